@@ -9,12 +9,23 @@ import checks.pkt as PK
 
 TRACE = PK.TRACE
 CHECKER = PK.CHECKER + '; generator: Setup_MC.tla with Setup_MC_{sizes,shapes,mutations}.cfg'
-C01_RULES = PK.C01_RULES | {'Locality', 'LocalityCount', 'PacketBitsConsumed', 'SameSpectrumSamePcm', 'FloorPostsAsSpecified', 'FloorCurveAsSpecified', 'ResidueAsSpecified', 'CouplingAsSpecified'}
+C01_RULES = PK.C01_RULES | {'Locality', 'LocalityCount', 'PacketBitsConsumed', 'SameSpectrumSamePcm', 'FloorPostsAsSpecified', 'FloorCurveAsSpecified', 'ResidueAsSpecified', 'CouplingAsSpecified', 'FloorProductAsSpecified'}
 
 def gen_cases(families=('sizes', 'shapes', 'mutations', 'residue')):
     out = {}; stats = dict(states=0, transitions=0, runs={})
+    # what TLC writes depends on the specification files only: the output of a successful run is kept under build/cache, keyed by a digest of /verif/spec
+    import hashlib, glob
+    dig = hashlib.sha256()
+    for fn in sorted(glob.glob(os.path.join(vlib.SPEC, '*.tla')) + glob.glob(os.path.join(vlib.SPEC, 'Setup_MC_*.cfg'))): dig.update(fn.encode()); dig.update(open(fn, 'rb').read())
+    cdir = os.path.join(vlib.BUILD, 'cache'); os.makedirs(cdir, exist_ok=True)
     def run(f):
-        r = vlib.run_tlc('Setup_MC.tla', f'Setup_MC_{f}.cfg', workers=(8 if f == 'residue' else 2), timeout=900)
+        cf = os.path.join(cdir, f'setupmc-{f}-{dig.hexdigest()[:20]}.json')
+        if os.path.exists(cf) and not os.environ.get('VERIF_NOCACHE'):
+            try: return f, json.load(open(cf))
+            except Exception: pass
+        r = vlib.run_tlc('Setup_MC.tla', f'Setup_MC_{f}.cfg', workers=(14 if f == 'residue' else 2), timeout=900)
+        if r['ok']:
+            tmp = cf + f'.{os.getpid()}'; json.dump({k: r[k] for k in ('ok', 'violated', 'out', 'distinct', 'generated')}, open(tmp, 'w')); os.replace(tmp, cf)
         return f, r
     with ThreadPoolExecutor(max_workers=3) as ex: rs = list(ex.map(run, families))
     problems = []
@@ -45,14 +56,15 @@ def gen_books(tier):
 
 def toks(fields): return ' '.join(f'{v}:{n}' for v, n in fields)
 
-def scn_from_case(rng, fam, i, c, nrand=3):
+def scn_from_case(rng, fam, i, c, nrand=3, probes=True):
     bs0, bs1 = 1 << c['e0'], 1 << c['e1']
     ls = [f"snew 0 {bs0} {bs1} {c['ch']}", f"shdr 0 0 {1 if c['idok'] else 0} {toks(c['id'])}", 'scom 0', f"shdr 0 2 {1 if c['ok'] else 0} {toks(c['setup'])}", 'pinit 0']
     k = 0
     for a in c['audio']:
-        probe = (f"fx={','.join(map(str, a['fit']))} yx={','.join(map(str, a['yc']))} " if a.get('fit') else '')
-        if a.get('rv') and len(a['rv']) <= 4 and len(a['rv'][0]) <= 256:
+        probe = (f"fx={','.join(map(str, a['fit']))} yx={','.join(map(str, a['yc']))} " if (a.get('fit') and probes) else '')
+        if probes and a.get('rv') and len(a['rv']) <= 4 and len(a['rv'][0]) <= 256:
             probe += 'rx=' + '/'.join(','.join(map(str, ch)) for ch in a['rv']) + ' cx=' + '/'.join(','.join(map(str, ch)) for ch in a['cv']) + ' '
+            if a.get('pv'): probe += 'px=' + '/'.join((','.join('.'.join(map(str, t)) for t in ch) if ch else 'x') for ch in a['pv']) + ' '
         ls.append(f"saud 0 {k} {a['W']} -1 0 {'ns ' if a.get('ns') else ''}{probe}{toks(a['f'])}"); k += 1
     for j in range(nrand if fam != 'books' else 1):
         ls.append(f'srand 0 {k} {rng.randrange(1 << 30)} {rng.choice([1, 2, 7, 40, 300])} -1'); k += 1
@@ -72,10 +84,10 @@ def scn_from_case(rng, fam, i, c, nrand=3):
     tag = ('-res' + 'x'.join(map(str, c['res']))) if fam == 'residue' and c.get('res') else ''
     return Scn(f"{fam}-{i}-{c['name']}{tag}-{c['ch']}ch-{bs0}-{bs1}", ls, 'synthetic-' + fam, budget=20, cost=10 + c['ch'] // 4)
 
-def build_scenarios(rng, cases, nrand):
+def build_scenarios(rng, cases, nrand, probes=True):
     scns = []
     for fam, cs in cases.items():
-        for i, c in enumerate(cs): scns.append(scn_from_case(rng, fam, i, c, nrand))
+        for i, c in enumerate(cs): scns.append(scn_from_case(rng, fam, i, c, nrand, probes))
     return scns
 
 def header_verdicts(res):
